@@ -61,8 +61,15 @@ def run(tier, replay=None):
     rest = [c for c in cases if len(c["path"]) > full_depth]
     budget = 16000 if tier == "quick" else 60000
     cases = keep + (rest if len(rest) <= budget else rnd.sample(rest, budget))
+    # identifiers in every role a name can play (GenNames.tla, exhaustive): names that begin / end with a keyword are names
+    from .. import gen
+    names, gn = gen.run_generator("GenNames", work / "names", dict(), timeout=300)
+    for c in names:
+        c["id"] = f"name:{c['name']}:{c['role']}"
+        c["path"] = []
+    cases += names
     cases.sort(key=lambda c: c["id"])
-    C.log(f"[{PID}] {len(cases)} programs (of {total} enumerated, depth <= {depth})")
+    C.log(f"[{PID}] {len(cases)} programs (of {total} enumerated, depth <= {depth}; {len(names)} identifier programs)")
     dis, skips, st = l1.run_cases(binary, work, cases)
     byid = {c["id"]: c for c in cases}
     rejected = [c for c in cases if c["rejected"]]
@@ -90,8 +97,8 @@ def run(tier, replay=None):
         executions=2 * len(cases), states=st["states"] + g.distinct + vres["states"], transitions=st["transitions"] + g.generated + vres["transitions"],
         traces_validated_against_impl=vres["recorded"], **vcov,
         evaluations=len(cases), distinct_nontrivial=len(cases),
-        rule=f"GenCtl.tla BFS: every path of <= {depth} constructs over 16 construct kinds x 7 terminators x padded/bare (exhaustive up to depth {full_depth}, seeded sample of {len(cases) - len(keep)} of the {len(rest)} depth-{depth} programs); every program is distinct by construction; each run through `run` and `compile`+`execute`",
-        exhaustive=(len(cases) == total), exhaustive_to_depth=full_depth,
+        rule=f"GenCtl.tla BFS: every path of <= {depth} constructs over 19 construct kinds (incl. loops whose start / end / step variables are reassigned in the body) x 7 terminators x padded/bare; plus GenNames.tla: 51 identifiers that begin / end with a keyword or use `_` / digits x 8 roles (variable, typed, parameter, loop counter, function name, list, captured, optional), exhaustive (exhaustive up to depth {full_depth}, seeded sample of {len(cases) - len(keep)} of the {len(rest)} depth-{depth} programs); every program is distinct by construction; each run through `run` and `compile`+`execute`",
+        exhaustive=(len(cases) == total + len(names)), exhaustive_to_depth=full_depth,
         samples=[dict(id=c["id"], src=c["src"], observed=c["obs"][0]["out"]) for c in cases[:: max(1, len(cases) // 3)][:3]],
     )
     rep.assumptions = ["MSLang.tla is the reading of the language semantics (README, examples, compiler tests; DESIGN appendix C)",
